@@ -243,6 +243,7 @@ var faultKinds = []string{
 	"dup-token-token", "dup-macro-token", "dup-mode-token", "dup-rule-token", "dup-external-token", "dup-rule-rule", "dup-mode-macro",
 	"bad-name-lower", "bad-name-trailing-underscore", "bad-name-double-underscore", "bad-name-EOF", "bad-name-ERROR", "bad-macro-name", "bad-external-name",
 	"undef-token-in-parser", "undef-rule-in-parser", "undef-macro", "undef-mode", "undef-emit", "undef-alias", "undef-in-list",
+	"emit-names-macro", "emit-names-mode", "emit-names-rule", "push-names-token", "push-names-macro", "lexer-term-names-token", "lexer-term-names-mode", "parser-term-names-macro", "parser-term-names-mode",
 	"ambiguous-alias", "macro-cycle-1", "macro-cycle-2", "macro-cycle-3", "macro-cycle-unused",
 	"no-start", "two-start",
 	"discard-on-token", "emit-on-token", "two-discard", "two-emit", "discard-and-emit",
@@ -340,6 +341,34 @@ func inject(rt *rapid.T, b *base, kind string) bool {
 		addLex("token", "UMD", "UMD = '~u~' @push_mode(NoSuchMode)")
 	case "undef-emit":
 		addLex("frag", "", "@frag '~u~' @emit(NOSUCHTOK)")
+	// a name that exists but denotes the wrong kind of thing
+	case "emit-names-macro":
+		addLex("frag", "", "@frag '~u~' @emit("+b.macros[0]+")")
+	case "emit-names-mode":
+		if len(b.modes) == 0 {
+			return false
+		}
+		addLex("frag", "", "@frag '~u~' @emit("+b.modes[ri(rt, 0, len(b.modes)-1, "wkmode")]+")")
+	case "emit-names-rule":
+		addLex("frag", "", "@frag '~u~' @emit(pair)")
+	case "push-names-token":
+		addLex("token", "UMD", "UMD = '~u~' @push_mode("+tok+")")
+	case "push-names-macro":
+		addLex("token", "UMD", "UMD = '~u~' @push_mode("+b.macros[0]+")")
+	case "lexer-term-names-token":
+		addLex("token", "UM", "UM = '~u~' "+tok)
+	case "lexer-term-names-mode":
+		if len(b.modes) == 0 {
+			return false
+		}
+		addLex("token", "UM", "UM = '~u~' "+b.modes[ri(rt, 0, len(b.modes)-1, "wkmode")])
+	case "parser-term-names-macro":
+		addRule("extra", "extra = "+tok+" "+b.macros[0])
+	case "parser-term-names-mode":
+		if len(b.modes) == 0 {
+			return false
+		}
+		addRule("extra", "extra = "+tok+" "+b.modes[ri(rt, 0, len(b.modes)-1, "wkmode")])
 	case "undef-alias":
 		addRule("extra", "extra = "+tok+" '~nosuch~'")
 	case "undef-in-list":
